@@ -8,8 +8,17 @@ ETH = 20  # energy threshold (dB) used everywhere: loud >= 36 dB, quiet <= 10 dB
 
 
 def scratch_dir():
-    base = "/dev/shm" if os.path.isdir("/dev/shm") else None
-    return tempfile.mkdtemp(prefix="vsim_", dir=base)
+    """Per-run scratch directory.  The path is the SAME for every run of one
+    process (removed and re-created), so that code which remembers something
+    about a path across uses (memoised headers, cached contents) meets the
+    same path again with different content - as a user overwriting a file
+    would produce."""
+    base = "/dev/shm" if os.path.isdir("/dev/shm") else tempfile.gettempdir()
+    d = os.path.join(base, "vsim_%d" % os.getpid())
+    if os.path.isdir(d):
+        shutil.rmtree(d, ignore_errors=True)
+    os.makedirs(d, exist_ok=True)
+    return d
 
 
 def rm_scratch(d):
